@@ -178,6 +178,7 @@ type PolyCtx struct {
 	symVal         map[string]ssa.Value
 	elemStored     map[string]bool
 	loadMemo       map[*ssa.UnOp]Poly
+	opArgs         map[string][]Poly
 	copyMemo       map[*ssa.Alloc]*copyEntry
 	storePaths     map[string]bool
 	busyStorePaths bool
@@ -596,6 +597,12 @@ func (c *PolyCtx) opaque(kind string, v ssa.Value, args ...Poly) Poly {
 	}
 	s := kind + "(" + strings.Join(as, ",") + ")"
 	s = strings.ReplaceAll(s, "*", "·") // keep the monomial separator unambiguous
+	if c.G {
+		if c.opArgs == nil {
+			c.opArgs = map[string][]Poly{}
+		}
+		c.opArgs[s] = args
+	}
 	return c.note(polySym(s), v)
 }
 
@@ -656,6 +663,14 @@ func (c *PolyCtx) of(v ssa.Value) Poly {
 				return c.lenOf(x.Call.Args[0])
 			case "cap":
 				return c.opaque("cap", v, c.sliceSym(x.Call.Args[0]))
+			case "max", "min":
+				if c.G && isIntLike(x.Type()) {
+					var as []Poly
+					for _, a := range x.Call.Args {
+						as = append(as, c.Of(a))
+					}
+					return c.opaque(b.Name(), v, as...)
+				}
 			}
 		}
 		name := CalleeName(&x.Call)
@@ -671,7 +686,11 @@ func (c *PolyCtx) of(v ssa.Value) Poly {
 			return polySym(p)
 		}
 	case *ssa.Phi:
-		// a phi whose edges are all congruent is that value
+		// a phi whose edges are all congruent is that value.  While the edges are evaluated
+		// the phi already answers with its final opaque name, so that loop-carried
+		// definitions (i = phi(0, i+1)) are expressed over it.
+		op := c.opaque("phi", v)
+		c.memo[v] = op
 		var first Poly
 		same := true
 		for i, e := range x.Edges {
@@ -683,9 +702,22 @@ func (c *PolyCtx) of(v ssa.Value) Poly {
 			}
 		}
 		if same && first != nil {
-			return first
+			self := false
+			for k := range op {
+				if _, uses := first[k]; uses {
+					self = true
+				}
+				for mono := range first {
+					if strings.Contains(mono, k) {
+						self = true
+					}
+				}
+			}
+			if !self {
+				return first
+			}
 		}
-		return c.opaque("phi", v)
+		return op
 	case *ssa.Extract:
 		return c.opaque(fmt.Sprintf("extract%d", x.Index), v)
 	}
@@ -717,6 +749,13 @@ func (c *PolyCtx) sliceSym(v ssa.Value) Poly {
 
 // lenOf: len of a slice value; slices of slices are resolved arithmetically.
 func (c *PolyCtx) lenOf(v ssa.Value) Poly {
+	t := v.Type().Underlying()
+	if pt, ok := t.(*types.Pointer); ok {
+		t = pt.Elem().Underlying()
+	}
+	if arr, ok := t.(*types.Array); ok {
+		return polyConst(arr.Len())
+	}
 	switch x := v.(type) {
 	case *ssa.Slice:
 		lo := polyConst(0)
@@ -736,8 +775,9 @@ func (c *PolyCtx) lenOf(v ssa.Value) Poly {
 		// a load forwarded from the single dominating store of a slice made in this function
 		if x.Op == token.MUL && c.G {
 			if st := c.forwardedStore(x); st != nil {
-				if mk, ok := st.Val.(*ssa.MakeSlice); ok {
-					return c.Of(mk.Len)
+				switch st.Val.(type) {
+				case *ssa.MakeSlice, *ssa.Slice:
+					return c.lenOf(st.Val)
 				}
 			}
 		}
